@@ -51,6 +51,8 @@ pub enum AddShredError {
     Equivocation,
     #[error("shred was invalid and leader did not equivocate")]
     InvalidShred,
+    #[error("shred's data/coding tag does not match its index")]
+    TypeMismatch,
 }
 
 /// Holds all data corresponding to any blocks for a single slot.
@@ -234,6 +236,16 @@ impl BlockData {
 
         let is_first_shred = self.shreds.is_empty();
         let shred_index = shred.payload().shred_index;
+        // The data/coding tag is covered by neither the leader's signature nor the Merkle
+        // path, so anyone can flip it in transit. The index alone determines the type;
+        // drop a mismatching shred without blaming the leader for it.
+        if shred.is_data() != (*shred_index < RegularShredder::DATA_OUTPUT_SHREDS) {
+            debug!(
+                "dropping shred {}-{} in slot {} with mismatching type tag",
+                slice_index, shred_index, self.slot
+            );
+            return Err(AddShredError::TypeMismatch);
+        }
         let slice_shreds = self
             .shreds
             .entry(slice_index)
